@@ -96,7 +96,10 @@ func (p Precompile) RunSetup(
 
 	// set the default SDK gas configuration to track gas usage
 	// we are changing the gas meter type, so it panics gracefully when out of gas
-	ctx = ctx.WithGasMeter(sdk.NewGasMeter(contract.Gas)).
+	// NOTE: the limit includes the gas already registered on the tx gas meter (e.g. the gas used by
+	// the previous messages of a multi-message Ethereum tx), which is consumed right below and
+	// must not be taken out of the gas available to this call.
+	ctx = ctx.WithGasMeter(sdk.NewGasMeter(initialGas + contract.Gas)).
 		WithKVGasConfig(p.KvGasConfig).
 		WithTransientKVGasConfig(p.TransientKVGasConfig)
 	// we need to consume the gas that was already used by the EVM
